@@ -224,6 +224,7 @@ void generate(uint64_t seed, const Str& profile, Desc& d, bool exceptions) {
             }
             if (faults.chance(1, 4)) { Op o; o.kind = K_W_EINTR; o.phase = PH_PROC; o.a = faults.chance(1, 3) ? faults.range(28, 36) : faults.range(1, 35); T.ops.push_back(o); }
             if (faults.chance(1, 25)) { Op o; o.kind = K_FORK_FAIL; o.phase = PH_PROC; T.ops.push_back(o); }
+            else if (faults.chance(1, 20)) { Op o; o.kind = K_W_ERR; o.phase = PH_PROC; static const int errs[] = { 10 /*ECHILD*/, 22 /*EINVAL*/, 10, 1 }; o.a = errs[faults.below(4)]; T.ops.push_back(o); }      // the wait for a real child fails outright
         }
         if (f.procSyn) {
             // what fork and waitpid answer for this test
